@@ -6,3 +6,7 @@ import Props.C04
 #print axioms Sched.InvD_step
 #print axioms Sched.InvD_init
 #print axioms Sched.decide_drop_clocks
+#print axioms Sched.fresh_not_rerun
+#print axioms Sched.freshSet_of_envcons
+#print axioms Sched.InvF_step
+#print axioms Sched.decide_fresh
